@@ -119,6 +119,42 @@ CheckEvents(n, ev, obsEv) ==
 
 ProcessingCall(a) == a[1] \in {"update", "react", "imm"}
 
+\* C07 : the storage behind the plans (PlanDataT::taskBounds / taskLinks / tasks), read through the probe.
+\* slots reached from slot i along `next` (stops at 0, at an index outside the pool, or after `fuel` steps)
+RECURSIVE ChainFrom(_, _, _, _)
+ChainFrom(tl, i, fuel, acc) ==
+    IF i = 0 \/ fuel = 0 THEN acc
+    ELSE IF i \notin 1 .. Len(tl) THEN Append(acc, i)
+    ELSE ChainFrom(tl, tl[i][2], fuel - 1, Append(acc, i))
+SeqRange(q) == { q[i] : i \in 1 .. Len(q) }
+RECURSIVE SumLen(_, _)
+SumLen(f, r) == IF r = 0 THEN 0 ELSE Len(f[r]) + SumLen(f, r - 1)
+
+PlanStorage(n, post) ==
+    LET cap   == Len(post.tl)
+        R     == 1 .. Len(post.tb)
+        chain == [r \in R |-> ChainFrom(post.tl, post.tb[r][1], cap + 1, <<>>)]
+        used  == UNION { SeqRange(chain[r]) : r \in R }
+    IN
+    \* every plan is an acyclic doubly linked list from taskBounds.first to taskBounds.last inside the pool ...
+    /\ \A r \in R :
+          LET ch == chain[r] IN
+          IF /\ (post.tb[r][1] = 0) = (post.tb[r][2] = 0)
+             /\ SeqRange(ch) \subseteq 1 .. cap
+             /\ Cardinality(SeqRange(ch)) = Len(ch)
+             /\ (ch # <<>> => ch[Len(ch)] = post.tb[r][2] /\ post.tl[ch[1]][1] = 0)
+             /\ \A j \in 2 .. Len(ch) : post.tl[ch[j]][1] = ch[j - 1]
+          THEN \* ... whose slots hold exactly the tasks the public iteration shows, in that order
+               Diff(n, "mon.plan.iter", [j \in 1 .. Len(ch) |-> post.ts[ch[j]]], post.plans[r])
+          ELSE Fail(n, "mon.plan.chain", <<r, post.tb[r], ch, post.tl>>)
+    \* the regions' plans share no slot
+    /\ IF \A r1, r2 \in R : r1 < r2 => SeqRange(chain[r1]) \cap SeqRange(chain[r2]) = {} THEN TRUE
+       ELSE Fail(n, "mon.plan.disjoint", chain)
+    \* their lengths add up to the number of stored tasks
+    /\ IF SumLen(chain, Len(post.tb)) = post.tasks THEN TRUE ELSE Fail(n, "mon.plan.count", <<chain, post.tasks>>)
+    \* a slot that belongs to no plan carries no links (append relies on it)
+    /\ IF \A i \in (1 .. cap) \ used : post.tl[i] = <<0, 0>> THEN TRUE ELSE Fail(n, "mon.plan.free", <<used, post.tl>>)
+
 Monitors(n, pre, m, rec, entered, src) ==
     LET post == rec.post  ev == rec.ev  run == BalancedRun(entered, ev) IN
     \* C01 : well-formed configuration after the call and inside every callback that can observe it
@@ -178,6 +214,8 @@ Monitors(n, pre, m, rec, entered, src) ==
                   /\ \A i \in 1 .. Len(src[2]) : \A j \in 1 .. Len(src[2][i][2]) : src[2][i][2][j][3] # "schedule"
                THEN Diff(n, "mon.replay.res", src[1][2].res, post.res) ELSE TRUE
        ELSE TRUE
+    \* C07 : plan storage
+    /\ IF rec.a[1] = "del" \/ ~Has("PLANS") THEN TRUE ELSE PlanStorage(n, post)
     \* C16 : the structure report mirrors isActive
     /\ IF rec.a[1] = "del" THEN TRUE
        ELSE IF post.strA = post.isA \/ ~Has("STRUCTURE_REPORT") THEN TRUE ELSE Fail(n, "mon.report", <<post.strA, post.isA>>)
@@ -190,6 +228,7 @@ CheckRecord(n, pre, m, rec, entered, src) ==
             /\ Diff(n, "prev.payload", Map(e.prev, Pay),   Map(rec.post.prev, Pay))
     /\ CheckEvents(n, m.ev, rec.ev)
     /\ Diff(n, "draws", m.draws, rec.draws)
+    /\ Diff(n, "plog", IF Has("PLANS") THEN m.plog ELSE <<>>, rec.plog)
     /\ IF rec.a[1] = "save" THEN Diff(n, "buf", Encode(m), rec.buf) ELSE TRUE
     /\ IF rec.a[1] \in {"replay", "replayenter"} THEN Diff(n, "ret", IF m.ok THEN 1 ELSE 0, rec.ret) ELSE TRUE
     /\ Diff(n, "badThis", <<>>, rec.badThis)
@@ -199,11 +238,14 @@ CheckRecord(n, pre, m, rec, entered, src) ==
     /\ Monitors(n, pre, m, rec, entered, src)
     \* bookkeeping for the orchestration (not a judgement): was a round vetoed in this step?
     /\ IF \E i \in 1 .. Len(m.rounds) : m.rounds[i][1] = "vetoed" THEN PrintT(<<"NOTE", n, "vetoed">>) ELSE TRUE
+    \* ... did user code edit a plan in this step?
+    /\ IF m.plog # <<>> THEN PrintT(<<"NOTE", n, "planedit">>) ELSE TRUE
 
 \* silent comparison of everything the functional projections look at
 Agrees(m, rec) ==
     /\ m.ev = rec.ev
     /\ m.draws = rec.draws
+    /\ (IF Has("PLANS") THEN m.plog ELSE <<>>) = rec.plog
     /\ rec.a[1] = "del" \/ (LET e == ToObs(m) IN (\A f \in Fields : e[f] = rec.post[f]) /\ e.prev = rec.post.prev)
 
 PostOf(rec) == IF rec.a[1] = "del" THEN BlankObs ELSE <<FALSE, rec.post>>
@@ -216,7 +258,7 @@ TraceNext ==
            pre == IF rec0.a[1] = "copy" THEN obs[rec0.a[2]] ELSE obs[rec0.i]
            m   == Step(FromObs(pre), rec0.a, rec0.sc)
            \* a quiet record (allocation measurement) carries no callback log: judge the rest against the expected one
-           rec == IF rec0.quiet THEN [rec0 EXCEPT !.ev = m.ev] ELSE rec0
+           rec == IF rec0.quiet THEN [rec0 EXCEPT !.ev = m.ev, !.plog = IF Has("PLANS") THEN m.plog ELSE <<>>] ELSE rec0
            \* where an open finding's deviation switch mattered, the intended behaviour is acceptable too
            mI  == Step([FromObs(pre) EXCEPT !.dev = {}], rec.a, rec.sc)
            e0  == IF rec.a[1] = "new" THEN {} ELSE IF rec.a[1] = "copy" THEN ent[rec.a[2]] ELSE ent[rec.i]
